@@ -10,6 +10,7 @@
 package c15
 
 import (
+	"context"
 	"database/sql"
 	"database/sql/driver"
 	"errors"
@@ -529,6 +530,13 @@ type Case struct {
 	Mode       string `json:"mode"` // all | batch (grid: only Find under key order and FindInBatches)
 	PtrBatch   bool   `json:"ptr_batch"`
 	Prefill    int    `json:"prefill"` // elements the []Rec destination of Find holds beforehand
+	// Reuse: "" | session | context: the finished chain is made reusable with
+	// Session(&gorm.Session{}) / WithContext(ctx) before any finisher is called.
+	Reuse string `json:"reuse"`
+	// ContLimit / ContOffset: the Limit(k) (and Offset(o) if > 0) added when a
+	// read is continued from the value another read finisher returned.
+	ContLimit  int `json:"cont_limit"`
+	ContOffset int `json:"cont_offset"`
 }
 
 func (c Case) String() string {
@@ -562,6 +570,12 @@ func (c Case) String() string {
 	}
 	b.WriteString(strings.Join(parts, "."))
 	fmt.Fprintf(&b, " batch=%d array=%d ptrbatch=%v prefill=%d", c.Batch, c.ArrayLen, c.PtrBatch, c.Prefill)
+	if c.Mode == "all" {
+		fmt.Fprintf(&b, " reuse=%q continue-with=Limit(%d)", c.Reuse, c.ContLimit)
+		if c.ContOffset > 0 {
+			fmt.Fprintf(&b, ".Offset(%d)", c.ContOffset)
+		}
+	}
 	return b.String()
 }
 
@@ -820,6 +834,12 @@ func (k *runner) chain(src string, inline bool) *gorm.DB {
 	if !k.c.CallsFirst {
 		calls()
 	}
+	switch k.c.Reuse {
+	case "session":
+		db = db.Session(&gorm.Session{})
+	case "context":
+		db = db.WithContext(context.Background())
+	}
 	return db
 }
 
@@ -868,12 +888,16 @@ func (k *runner) mapsToRows(path string, ms []map[string]interface{}) ([]Row, bo
 
 // expect checks error, RowsAffected and rows of a multi-row path.
 func (k *runner) expect(path string, tx *gorm.DB, got []Row, want int, checkAffected bool) {
+	k.expectRef(k.ref, path, tx, got, want, checkAffected)
+}
+
+func (k *runner) expectRef(ref *reference, path string, tx *gorm.DB, got []Row, want int, checkAffected bool) {
 	if tx.Error != nil {
 		k.failf("%s: unexpected error %v", path, tx.Error)
 		return
 	}
-	if msg := k.ref.checkRows(got, want); msg != "" {
-		k.failf("%s: %s; got %s, reference window %s", path, msg, rowsString(got), rowsString(k.ref.window))
+	if msg := ref.checkRows(got, want); msg != "" {
+		k.failf("%s: %s; got %s, reference window %s", path, msg, rowsString(got), rowsString(ref.window))
 		return
 	}
 	if checkAffected && int(tx.RowsAffected) != len(got) {
@@ -1450,6 +1474,178 @@ func (k *runner) batchPaths() {
 	}
 }
 
+// continuationPaths: a read reached by continuing from the value another read
+// finisher returned (the pagination idiom q.Count(&total).Limit(k).Offset(o).Find(&page)),
+// and, for a reusable chain, the same reads from the original chain value after
+// it has been used by those finishers. Every read must equal the reference of
+// the chain's conditions and ordering; Count itself is judged only without an
+// effective limit/offset.
+//
+// Supported pairs (read in finisher_api.go): Count restores SELECT / ORDER BY /
+// Model before returning, so any read may follow it; Find leaves only an empty
+// SELECT clause that Count replaces, so Count may follow Find. Pluck leaves its
+// single-column SELECT clause in the statement it returns (no restore code
+// exists), so a Find continued from Pluck's return value is not a supported
+// idiom and is not generated; Pluck followed by reads from the original
+// reusable chain is.
+func (k *runner) continuationPaths() {
+	ps := k.plainSrc() // Count needs Model or Table
+	extra := k.c
+	extra.Calls = append(append([]Call(nil), k.c.Calls...), Call{"limit", k.c.ContLimit})
+	page := fmt.Sprintf("Limit(%d)", k.c.ContLimit)
+	if k.c.ContOffset > 0 {
+		extra.Calls = append(extra.Calls, Call{"offset", k.c.ContOffset})
+		page += fmt.Sprintf(".Offset(%d)", k.c.ContOffset)
+	}
+	pageRef := newReference(extra)
+	paged := func(db *gorm.DB) *gorm.DB {
+		db = db.Limit(k.c.ContLimit)
+		if k.c.ContOffset > 0 {
+			db = db.Offset(k.c.ContOffset)
+		}
+		return db
+	}
+
+	// the reads, each applicable to Count's return value and to the original chain
+	type read struct {
+		name string
+		ok   bool
+		run  func(path string, db *gorm.DB)
+	}
+	var lo *Row
+	if len(k.ref.matched) > 0 {
+		lo = &k.ref.matched[0]
+	}
+	single := func(path string, tx *gorm.DB, r Rec, want *Row) {
+		if len(k.ref.matched) == 0 {
+			if !errors.Is(tx.Error, gorm.ErrRecordNotFound) {
+				k.failf("%s: nothing matches but the error is %v, want ErrRecordNotFound", path, tx.Error)
+			}
+			return
+		}
+		got := fromRec(r)
+		switch {
+		case tx.Error != nil:
+			k.failf("%s: %d rows match but the error is %v", path, len(k.ref.matched), tx.Error)
+		case tx.RowsAffected != 1:
+			k.failf("%s: RowsAffected=%d, want 1", path, tx.RowsAffected)
+		case !k.ref.inMatch[got.ID] || k.ref.byID[got.ID].String() != got.String():
+			k.failf("%s: returned %v which is not a matching table row", path, got)
+		case want != nil && got.ID != want.ID:
+			k.failf("%s: returned %v, want %v", path, got, *want)
+		case want == nil && k.ref.project(got) != k.ref.project(k.ref.sorted[0]):
+			k.failf("%s: returned %v, the ordering puts %v first", path, got, k.ref.sorted[0])
+		}
+	}
+	reads := []read{
+		{"Find(&[]Rec)", true, func(path string, db *gorm.DB) {
+			var rs []Rec
+			tx := db.Find(&rs)
+			k.expect(path, tx, recsToRows(rs), len(k.ref.window), true)
+		}},
+		{page + ".Find(&[]Rec)", true, func(path string, db *gorm.DB) {
+			var rs []Rec
+			tx := paged(db).Find(&rs)
+			k.expectRef(pageRef, path, tx, recsToRows(rs), len(pageRef.window), true)
+		}},
+		{"Find(&[]map)", true, func(path string, db *gorm.DB) {
+			var ms []map[string]interface{}
+			tx := db.Find(&ms)
+			if got, ok := k.mapsToRows(path, ms); ok {
+				k.expect(path, tx, got, len(k.ref.window), true)
+			}
+		}},
+		{`Pluck("s", &[]string)`, true, func(path string, db *gorm.DB) {
+			var v []string
+			tx := db.Pluck("s", &v)
+			if tx.Error != nil {
+				k.failf("%s: unexpected error %v", path, tx.Error)
+				return
+			}
+			got := make([]string, len(v))
+			for i, x := range v {
+				got[i] = strconv.Quote(x)
+			}
+			if msg := k.ref.checkValues("s", got); msg != "" {
+				k.failf("%s: %s; got %v, reference window %s", path, msg, got, rowsString(k.ref.window))
+			}
+		}},
+		{"First(&Rec)", k.c.Order == "none" && k.ref.offset == 0, func(path string, db *gorm.DB) {
+			var r Rec
+			single(path, db.First(&r), r, lo)
+		}},
+		{"Take(&Rec)", k.ref.offset == 0, func(path string, db *gorm.DB) {
+			var r Rec
+			single(path, db.Take(&r), r, nil)
+		}},
+	}
+	count := func(path string, db *gorm.DB) *gorm.DB {
+		var n int64 = -7
+		tx := db.Count(&n)
+		if tx.Error != nil {
+			k.failf("%s: unexpected error %v", path, tx.Error)
+		} else if !k.ref.windowed() && int(n) != len(k.ref.matched) {
+			k.failf("%s = %d, but Find returns %d rows", path, n, len(k.ref.matched))
+		}
+		return tx
+	}
+
+	// 1. Count, then one read from the value Count returned (fresh chain per pair)
+	for _, rd := range reads {
+		if !rd.ok {
+			continue
+		}
+		chain := k.chain(ps, false)
+		r := count("Count (before "+rd.name+")", chain)
+		if k.fail != "" {
+			return
+		}
+		rd.run("Count(&n), then from the returned value "+rd.name+" via "+ps, r)
+		if k.fail != "" {
+			return
+		}
+	}
+	// 2. Find, then Count from the value Find returned
+	if !k.ref.windowed() {
+		var rs []Rec
+		r := k.chain(ps, false).Find(&rs)
+		k.expect("Find(&[]Rec) (before Count)", r, recsToRows(rs), len(k.ref.window), true)
+		if k.fail != "" {
+			return
+		}
+		count("Find(&[]Rec), then from the returned value Count via "+ps, r)
+		if k.fail != "" {
+			return
+		}
+	}
+	// 3. a reusable chain: after Count, Pluck and Find were called on it (and reads were
+	// continued from what they returned), every read from the original value still agrees
+	if k.c.Reuse == "" {
+		return
+	}
+	base := k.chain(ps, false)
+	r := count("Count on the reusable chain", base)
+	if k.fail != "" {
+		return
+	}
+	reads[1].run("reusable chain: Count(&n), then from the returned value "+reads[1].name, r)
+	var plucked []int64
+	if tx := base.Pluck("id", &plucked); tx.Error != nil {
+		k.failf("reusable chain: Pluck(\"id\"): unexpected error %v", tx.Error)
+	}
+	for _, rd := range reads {
+		if k.fail != "" {
+			return
+		}
+		if rd.ok {
+			rd.run("reusable chain, after Count/Pluck were called on it: "+rd.name+" via "+ps, base)
+		}
+	}
+	if k.fail == "" {
+		count("reusable chain, Count again after the other reads", base)
+	}
+}
+
 // insertRows fills the table through database/sql (not through gorm).
 func insertRows(d *testdb.DB, rows []Row) error {
 	if _, err := d.SQL.Exec(ddl); err != nil {
@@ -1487,7 +1683,7 @@ func checkCase(c Case) (violation string, harnessErr error) {
 		return "", err
 	}
 	k := &runner{c: c, db: d, ref: newReference(c)}
-	steps := []func(){k.findPaths, k.rowsPaths, k.scanPaths, k.pluckPaths, k.countPath, k.singlePaths, k.batchPaths}
+	steps := []func(){k.findPaths, k.rowsPaths, k.scanPaths, k.pluckPaths, k.countPath, k.singlePaths, k.batchPaths, k.continuationPaths}
 	if c.Mode == "batch" {
 		steps = []func(){k.batchPaths}
 	}
@@ -1583,6 +1779,14 @@ func classify(c Case, r *reference) (bool, []string) {
 		boundary = true
 	}
 	if c.Mode == "all" {
+		reuse := c.Reuse
+		if reuse == "" {
+			reuse = "none"
+		}
+		cl = append(cl, "reuse:"+reuse, "path:count-then-read")
+		if !r.windowed() {
+			cl = append(cl, "path:find-then-count")
+		}
 		if c.Order == "none" {
 			cl = append(cl, "path:batches+first+last")
 		}
@@ -1904,6 +2108,9 @@ func genCase(rt *rapid.T) Case {
 	c.ArrayLen = rapid.SampledFrom([]int{0, 1, 2, 3, 5, 8, 13, 26}).Draw(rt, "array-len")
 	c.PtrBatch = rapid.Bool().Draw(rt, "ptr-batch")
 	c.Prefill = rapid.SampledFrom([]int{0, 0, 1, 3}).Draw(rt, "prefill")
+	c.Reuse = rapid.SampledFrom([]string{"", "session", "session", "context"}).Draw(rt, "reuse")
+	c.ContLimit = rapid.IntRange(1, 6).Draw(rt, "cont-limit")
+	c.ContOffset = rapid.IntRange(0, 4).Draw(rt, "cont-offset")
 	return c
 }
 
